@@ -72,6 +72,14 @@ ShortLines == {<<"a">>, <<"b">>, <<" ", "a">>, <<"A">>}
 Seps == {<<"\n">>, <<"\r", "\n">>}
 MixedTexts == {l1 \o s1 \o l2 : l1 \in ShortLines, l2 \in ShortLines, s1 \in Seps}
               \cup {l1 \o s1 \o l2 \o s2 \o l3 : l1 \in ShortLines, l2 \in ShortLines, l3 \in ShortLines, s1 \in Seps, s2 \in Seps}
+(* comment lines: a snippet made of comments (and blank lines) only, and comments next to directives.  A comment is a line
+   like any other: it is not a keyword, and with "*" it goes away with the rest *)
+CommentLines == {<<"#", "a">>, <<" ", "#", "A">>, <<"#", "b", " ", "a">>}
+CommentTexts == CommentLines
+                \cup {l1 \o <<"\n">> \o l2 : l1 \in CommentLines, l2 \in CommentLines \cup ShortLines \cup {<<>>, <<" ">>}}
+                \cup {l1 \o <<"\n">> \o l2 : l1 \in ShortLines, l2 \in CommentLines}
+InitComments == txt \in CommentTexts
+SpecComments == InitComments /\ [][Next]_txt
 InitMixed == txt \in MixedTexts
 SpecMixed == InitMixed /\ [][Next]_txt
 
